@@ -12,8 +12,8 @@ from .extract import Index
 from .interp import Interp, State
 from .lift import Lifter
 from .values import (
-    ClassVal, EnumVal, ExcVal, FuncVal, HDict, HInst, HList, HSymMap, Opaque, Ref, Rope, SymBytes, SymSeq, Unsupported, is_sym,
-    is_symbool, is_symint, to_z3bool,
+    ClassVal, EnumVal, ExcVal, FuncVal, HDict, HInst, HList, HSymList, HSymMap, Opaque, Ref, Rope, SymBytes, SymEnum, SymSeq, Unsupported, is_sym,
+    is_symbool, is_symint, to_z3bool, to_z3int,
 )
 
 VERIF_ROOT = os.path.dirname(os.path.dirname(os.path.dirname(os.path.abspath(__file__))))
@@ -46,6 +46,9 @@ class Engine:
         I.overrides["vf.contracts.rt.make_file"] = _rt_make_file
         I.overrides["vf.contracts.rt.logged"] = _rt_logged
         I.overrides["vf.contracts.rt.fresh_int"] = _rt_fresh_int
+        I.overrides["vf.contracts.rt.fresh_list"] = _rt_fresh_list
+        I.overrides["vf.contracts.rt.fresh_inst"] = _rt_fresh_inst
+        I.overrides["vf.contracts.rt.opaque"] = _rt_opaque
         return I
 
     def harness_checks(self, qualname):
@@ -127,6 +130,32 @@ def _rt_fresh_int(I, args, kwargs, st):
     return [("val", I.fresh_int(str(args[0])), st)]
 
 
+def _rt_fresh_list(I, args, kwargs, st):
+    """fresh_list(name, minlen, cls=None, fields=()): a list of arbitrary length >= minlen whose elements are arbitrary
+    instances of `cls` (fields opaque) or opaque values."""
+    name, minlen = args[0], args[1]
+    cls = args[2] if len(args) > 2 else kwargs.get("cls")
+    fields = args[3] if len(args) > 3 else kwargs.get("fields", ())
+    n = I.fresh_int(str(name) + "_len")
+    st.pc.append(n >= minlen)
+
+    def mk(I2, st2, idx):
+        if cls is None:
+            return Opaque("element")
+        return I2.alloc(st2, HInst(cls, {f: Opaque(f) for f in fields}))
+    return [("val", I.alloc(st, HSymList(n, mk, what=str(name))), st)]
+
+
+def _rt_fresh_inst(I, args, kwargs, st):
+    cls = args[0]
+    fields = args[1] if len(args) > 1 else ()
+    return [("val", I.alloc(st, HInst(cls, {f: Opaque(f) for f in fields})), st)]
+
+
+def _rt_opaque(I, args, kwargs, st):
+    return [("val", Opaque(str(args[0]) if args else "value"), st)]
+
+
 class Builder:
     """Symbolic input builder for one case of a harness."""
 
@@ -192,6 +221,39 @@ class Builder:
 
     def enum(self, cls, name):
         return self.engine.lifter.enum_member(cls, name)
+
+    def symenum(self, name, cls):
+        """An arbitrary member of the Enum class `cls`."""
+        members = self.engine.lifter.enum_members(cls)
+        code = self.int(name, 0, len(members) - 1)
+        return SymEnum(cls, code, members)
+
+    def func(self, qualname):
+        if qualname not in self.engine.index.functions:
+            raise Unsupported(f"target-missing: function {qualname}")
+        return FuncVal(qualname)
+
+    VALUE_STRIDE = 1 << 16
+
+    def symtokens(self, name, maxlen=None):
+        """A token list of ARBITRARY length: token i has an arbitrary TokenType and an arbitrary text (a string of arbitrary
+        length below VALUE_STRIDE).  Reading the same index twice yields tokens with the same type and text."""
+        members = self.engine.lifter.enum_members("a816.parse.tokens.TokenType")
+        types = z3.Array(name + "_type", z3.IntSort(), z3.IntSort())
+        lens = z3.Array(name + "_vlen", z3.IntSort(), z3.IntSort())
+        vals = z3.Array(name + "_text", z3.IntSort(), z3.IntSort())
+        n = self.int(name + "_len", 0, maxlen)
+        for a, arr in (("_type", types), ("_vlen", lens), ("_text", vals)):
+            self.symbols[name + a] = arr
+        K = self.VALUE_STRIDE
+
+        def mk(I, st, idx):
+            t = z3.Select(types, idx)
+            ln = z3.Select(lens, idx)
+            st.pc.append(z3.And(t >= 0, t < len(members), ln >= 0, ln < K))  # type invariant of the input
+            return I.alloc(st, HInst("a816.parse.tokens.Token", {"type": SymEnum("a816.parse.tokens.TokenType", t, members),
+                                                                 "value": SymSeq(vals, z3.simplify(to_z3int(idx) * K), ln, "str"), "position": None}))
+        return self.I.alloc(self.st, HSymList(n, mk, what="tokens"))
 
     def cls(self, qualname):
         return ClassVal(qualname)
@@ -351,6 +413,9 @@ def materialize(engine: Engine, B: Builder, st: State, value, model, seen=None):
             return {"k": "set", "v": [go(x) for x in sorted(v, key=repr)]}
         if isinstance(v, EnumVal):
             return {"k": "enum", "cls": v.cls, "name": v.name}
+        if isinstance(v, SymEnum):
+            code = ev(v.code)
+            return {"k": "enum", "cls": v.cls, "name": v.members[code % len(v.members) if isinstance(code, int) else 0]}
         if isinstance(v, ClassVal):
             return {"k": "class", "v": v.qualname}
         if isinstance(v, FuncVal):
@@ -370,6 +435,16 @@ def materialize(engine: Engine, B: Builder, st: State, value, model, seen=None):
                 return {"k": "list", "id": v.oid, "v": [go(x) for x in o.items]}
             if isinstance(o, HDict):
                 return {"k": "dict", "id": v.oid, "v": [[go(a), go(b)] for a, b in o.items.items()]}
+            if isinstance(o, HSymList):
+                n = ev(o.total())
+                n = max(0, min(int(n) if isinstance(n, int) else 0, 64)) - len(o.prefix) - len(o.tail)
+                mid = []
+                for i in range(max(0, n)):
+                    try:
+                        mid.append(go(o.mk(I, st, z3.IntVal(i))))
+                    except Unsupported:
+                        mid.append({"k": "opaque", "v": "element"})
+                return {"k": "list", "id": v.oid, "v": [go(x) for x in o.prefix] + mid + [go(x) for x in o.tail]}
             if isinstance(o, HSymMap):
                 # enumerate a finite window of keys (bank numbers 0..255)
                 items = []
